@@ -348,6 +348,9 @@ func (s *Server) buildFBlock(b *Block) ([]byte, factom.Bytes32) {
 	return append(hdr, body...), keymr
 }
 
+// SetKeepLog switches the request log on or off.
+func (s *Server) SetKeepLog(v bool) { s.mu.Lock(); s.KeepLog = v; s.mu.Unlock() }
+
 // SetTip sets the directory block height reported by "heights".
 func (s *Server) SetTip(h uint32) { s.mu.Lock(); s.tip = h; s.mu.Unlock() }
 
